@@ -11,6 +11,7 @@ CONSTANTS
   Catalogue <- CatQuick
   MaxHist = 5
   DecoderScope = "perIteration"
+  EqKinds <- KindsPlain
   CopyVariant = "copy"
 CONSTRAINT ExportC
 INVARIANT PerIterationDecode
